@@ -18,9 +18,12 @@ import (
 	"sync"
 	"testing"
 	"testing/synctest"
+	"time"
 
 	"github.com/saucelabs/forwarder/internal/zzverif/bubble"
 	"github.com/saucelabs/forwarder/internal/zzverif/explore"
+	"github.com/saucelabs/forwarder/internal/zzverif/tsched"
+	"github.com/saucelabs/forwarder/internal/zzverif/vsync"
 )
 
 // ---- scripted environment -----------------------------------------------------------------------------
@@ -596,9 +599,67 @@ func poolScenario(x *explore.X) {
 	x.Outcome(fmt.Sprintf("callers=%d", ncall))
 }
 
+// schedScenario (Engine T): 2-3 scheduler threads evaluate through the pool; sync.Pool of pool.go is the
+// deterministic shim (Get/Put are scheduling points) and the scripted DNS lookup is a scheduling point too,
+// so every interleaving of "take a VM - start evaluating - resolve - finish - put back" within the preemption
+// bound is explored. No VM may be inside two evaluations at once and every answer equals the sequential one.
+func schedScenario(t *testing.T, x *explore.X) {
+	ncall := 2 + x.ChooseFree("callers-2", 2)
+	callHosts := []string{"a.b.test", "multi.test", "none.test"}[:ncall]
+	want := map[string]string{"a.b.test": "PROXY in12.test:1; T-a.b.test 1.2.3.4", "multi.test": "PROXY other.test:2; T-multi.test 9.9.9.9", "none.test": "DIRECT; T-none.test"}
+	script := `function FindProxyForURL(url, host) {
+  var tag = "T-" + host;
+  var ip = dnsResolve(host);
+  if (ip == null) return "DIRECT; " + tag;
+  if (isInNet(ip, "1.2.0.0", "255.255.0.0")) return "PROXY in12.test:1; " + tag + " " + ip;
+  return "PROXY other.test:2; " + tag + " " + ip;
+}`
+	res := make([]string, ncall)
+	errs := make([]error, ncall)
+	tsched.Run(t, x, time.Second, false, func() {
+		pool, err := NewProxyResolverPool(&ProxyResolverConfig{Script: script, testingMyIPAddress: []net.IP{}, testingMyIPAddressEx: []net.IP{},
+			testingLookupIP: func(ctx context.Context, network, host string) ([]net.IP, error) {
+				vsync.Point("dnsResolve(" + host + ")")
+				return lookup(ctx, network, host)
+			}}, nil)
+		if err != nil {
+			x.Failf("pool/new", "%v", err)
+			return
+		}
+		rounds := 1 + x.ChooseFree("rounds-1", 2) // a second round re-uses the VMs put back by the first
+		for i, h := range callHosts {
+			vsync.GoNamed("caller-"+h, func() {
+				for r := 0; r < rounds; r++ {
+					func() {
+						defer func() {
+							if p := recover(); p != nil {
+								errs[i] = fmt.Errorf("panic inside the evaluation: %v", p)
+							}
+						}()
+						out, err := pool.FindProxyForURL(&url.URL{Scheme: "http", Host: h, Path: "/"}, "")
+						if err != nil {
+							errs[i] = err
+						} else if r == 0 || out != res[i] {
+							res[i] = out
+						}
+					}()
+				}
+			})
+		}
+	}, func(s *vsync.Scheduler) {
+		x.Check()
+		for i, h := range callHosts {
+			if errs[i] != nil || res[i] != want[h] {
+				x.Failf("pool/concurrent-answer-differs", "caller %d (host %s) got %q, %v; evaluated alone the script yields %q\n  schedule: %v", i, h, res[i], errs[i], want[h], s.Trace)
+			}
+		}
+		x.Outcome(fmt.Sprintf("sched callers=%d", ncall))
+	})
+}
+
 func TestC14(t *testing.T) {
 	s := explore.NewSuite(t, "C14", "model_checking",
-		"(helpers) every predefined helper x every argument tuple of its alphabet (10 hosts incl. case variants, IPv4/IPv6 literals, unresolvable and multi-address names; 8 domains; 5 host-domain pairs; 14 glob patterns of literals . * ?; 7 dotted net/mask pairs; 11 CIDRs x 7 addresses; 9 address lists) with scripted DNS and interface addresses, compared with a reference evaluator; (result) 14 return expressions x 6 entry-point shapes; (trees) every decision tree if(c1){if([!]c2) L1; L2} L3 over 8 conditions and 4 leaves (quick: leaves fixed per position) evaluated on 10 hosts; (lists) every result list of <= 2 (quick) / 3 (thorough) entries from 16 well-formed and malformed entries through pac.Proxies.All/First/URL; (pool) 2-3 concurrent FindProxyForURL callers through ProxyResolverPool, each blocked inside dnsResolve, released in EVERY order (states = release histories), answers compared with the sequential ones")
+		"(helpers) every predefined helper x every argument tuple of its alphabet (10 hosts incl. case variants, IPv4/IPv6 literals, unresolvable and multi-address names; 8 domains; 5 host-domain pairs; 14 glob patterns of literals . * ?; 7 dotted net/mask pairs; 11 CIDRs x 7 addresses; 9 address lists) with scripted DNS and interface addresses, compared with a reference evaluator; (result) 14 return expressions x 6 entry-point shapes; (trees) every decision tree if(c1){if([!]c2) L1; L2} L3 over 8 conditions and 4 leaves (quick: leaves fixed per position) evaluated on 10 hosts; (lists) every result list of <= 2 (quick) / 3 (thorough) entries from 16 well-formed and malformed entries through pac.Proxies.All/First/URL; (pool) 2-3 concurrent FindProxyForURL callers through ProxyResolverPool, each blocked inside dnsResolve, released in EVERY order (states = release histories), answers compared with the sequential ones; (pool-interleavings) sync.Pool of pool.go replaced at build time by a deterministic shim, 2-3 scheduler threads x 1-2 rounds, every interleaving of Get / evaluate / dnsResolve / Put with at most 2 (quick) / 3 (thorough) preemptions")
 	s.Assume = []string{"reference helper semantics: Netscape PAC text / Mozilla ascii_pac_utils.js / Chromium on the domain where they agree (see DESIGN.md)", "goja executes the JavaScript; the harness scripts DNS through the package's testingLookupIP seam"}
 	s.Add(explore.Scenario{Name: "helpers", Run: helperScenario})
 	s.Add(explore.Scenario{Name: "my-ip", Run: myIPScenario})
@@ -607,6 +668,8 @@ func TestC14(t *testing.T) {
 	s.Add(explore.Scenario{Name: "trees-thorough", Tiers: []string{"thorough"}, Run: func(x *explore.X) { treeScenario(x, true) }})
 	s.Add(explore.Scenario{Name: "lists-quick", Tiers: []string{"quick"}, Run: func(x *explore.X) { listScenario(x, 2) }})
 	s.Add(explore.Scenario{Name: "lists-thorough", Tiers: []string{"thorough"}, Run: func(x *explore.X) { listScenario(x, 3) }})
+	s.Add(explore.Scenario{Name: "pool-interleavings", Remote: true, MaxDev: map[string]int{"quick": 2, "thorough": 3},
+		Run: func(x *explore.X) { schedScenario(t, x) }})
 	s.Add(explore.Scenario{Name: "pool", Remote: true, Run: func(x *explore.X) { bubble.Run(t, x, func() { poolScenario(x) }) }})
 	s.Main()
 }
